@@ -187,6 +187,13 @@ FAULTS = [
     ("stray-continue", ["def f(x) do if x > 1 then continue; x end",
                         "def a = 1", "f(2)"], 0, "rt",
      {"stack": [("f", 2)]}),
+    # a call through the pipeline operator is reported at the function it
+    # calls (or where the expression starts), not at the operator
+    ("pipeline", ["def a = 1", "a !> length()", "a"], 1, "rt", {}),
+    ("pipeline-undefined", ["def a = 1", "a !> no_such_function(2)", "a"], 1,
+     "rt", {}),
+    ("pipeline-second", ["def a = [1]", "a !> length() !> length()", "a"], 1,
+     "rt", {}),
     ("module", ["def a = 1", f"require {MODNAME}", f"{MODNAME}->boom(a)"],
      2, "rt", {"file": "mod:" + MODNAME, "line": 5,
                "stack": [("boom", 2)]}),
@@ -246,6 +253,7 @@ POSTOK = {"chain-add": 6, "chain-mul": 6, "nested-call": 6, "member": 4,
           "second-arg": 6, "undefined-name": 3, "operator-type": 5, "native-type": 1,
           "explicit-error": 0, "arity": 1, "index": 1, "not-boolean": 0,
           "deep": 5, "stray-break": 11, "stray-continue": 11,
+          "pipeline": 2, "pipeline-undefined": 2, "pipeline-second": 6,
           "stray-paren": 3, "missing-then": 2, "bad-def": 1,
           "unexpected-end": 5, "missing-end": 3, "surplus-def": 6,
           "surplus-bracket": 6, "surplus-end": 3}
@@ -257,7 +265,8 @@ POSTOK = {"chain-add": 6, "chain-mul": 6, "nested-call": 6, "member": 4,
 STARTTOK = {"chain-add": 3, "chain-mul": 3, "nested-call": 5, "member": 3,
             "second-arg": 6, "undefined-name": 3, "operator-type": 3,
             "native-type": 0, "explicit-error": 0, "arity": 0, "index": 0,
-            "not-boolean": 1, "deep": 5, "stray-break": 11,
+            "not-boolean": 1, "deep": 5, "pipeline": 0,
+            "pipeline-undefined": 0, "pipeline-second": 0, "stray-break": 11,
             "stray-continue": 11, "stray-paren": 3,
             "missing-then": 0, "bad-def": 0, "unexpected-end": 5,
             "missing-end": 0, "surplus-def": 6, "surplus-bracket": 6,
